@@ -225,6 +225,20 @@ def run_problem(prob, method, x0mode, rec, rng, seams):
             bad("wiring:wrong-number-of-constraints", got=len(cl), want=len(rels))
 
     # ---- end-to-end against raw SciPy with reference callables --------------
+    # linearly dependent constraints active at x* (x[1] == c together with x[1] >= c): a degenerate KKT system, on which the path of the
+    # direct SciPy run is decided by round-off - outside "smooth convex problem with a unique optimum"; generated no more, and not judged
+    try:
+        D_ = R.Decls(prob["decls"])
+        act = []
+        for c_ in prob.get("cons") or []:
+            if c_.get("active"):
+                jc, _ = R.ref_jet(D_, c_["g"], names, prob["xstar"], order=1)
+                act.append([float(v) for v in jc.g])
+        if len(act) >= 2 and np.linalg.matrix_rank(np.array(act), tol=1e-9) < len(act):
+            rec.noncomp["degenerate-active-set-at-the-manufactured-optimum"] += 1
+            return
+    except Exception:
+        pass
     has_bounds = any(lb is not None or ub is not None for lb, ub in decl_bounds)
     raw_method = used_method
     if (rels and used_method not in ("SLSQP", "trust-constr", "COBYLA")) or (has_bounds and used_method not in BOUNDS_METHODS):
